@@ -12,6 +12,8 @@ def run(ctx):
     asm_hmac.run_family(ctx, 'C02')       # HMAC managers (machine code) first: seconds
     from props import asm_cmac
     asm_cmac.run_family(ctx, 'C02')       # AES-CMAC managers with their real CBC-MAC kernels
+    from props import asm_sm3
+    asm_sm3.run_family(ctx, 'C02')        # SM3 / HMAC-SM3 job routines, every tag length
     for f in ('lib/include/sha_mb_mgr.h', 'lib/sse_t1/sha_mb_sse.c', 'lib/x86_64/ooo_mgr_reset.c'):
         ctx.note_source(f)
     small = {1: [0, 1, 55, 56, 64, 119], 224: [0, 55, 56, 64], 256: [0, 1, 55, 56, 64, 119], 384: [0, 111, 112, 128], 512: [0, 1, 111, 112, 128]}
